@@ -15,7 +15,8 @@ BOUNDS = {'models': '3x2, 2x3, 2x2 concrete small-integer matrices (matrix-backe
 OUTSIDE = ['a non-converged inner solver (finite maxit)', 'sizes beyond the bounds']
 ASSUMPTIONS = ['every float64 operation is read as the exact real operation', 'CGLS run to convergence returns x with M^T M x = M^T y (C16)']
 
-MATS = {'3x2': np.array([[2.0, -1.0], [1.0, 3.0], [0.0, 1.0]]), '2x3': np.array([[1.0, 2.0, 0.0], [-1.0, 1.0, 3.0]]), '2x2': np.array([[2.0, 1.0], [-1.0, 3.0]])}
+MATS = {'3x2': np.array([[2.0, -1.0], [1.0, 3.0], [0.0, 1.0]]), '2x3': np.array([[1.0, 2.0, 0.0], [-1.0, 1.0, 3.0]]), '2x2': np.array([[2.0, 1.0], [-1.0, 3.0]]),
+        '3x2b': np.array([[1.0, 0.0], [-2.0, 1.0], [3.0, 2.0]])}
 
 
 class CGLSRecorder:
@@ -55,6 +56,11 @@ def configs(tier, seed=0):
             out.append({'key': '%s/rto/3x2/matrix/gmrf-o%d' % (iface, order), 'kind': 'rto', 'iface': iface, 'mat': '3x2', 'backing': 'matrix', 'noise': 'prec-scalar',
                         'prior': 'gmrf%d' % order})
         out.append({'key': '%s/rto/two-likelihoods' % iface, 'kind': 'rto', 'iface': iface, 'mat': '3x2', 'backing': 'matrix', 'noise': 'cov-scalar', 'prior': 'prec-scalar', 'two': True})
+        # two likelihoods with data of EQUAL length but different models and noise levels (a mix-up of the two is then shape-compatible)
+        out.append({'key': '%s/rto/two-likelihoods-equal-length' % iface, 'kind': 'rto', 'iface': iface, 'mat': '3x2', 'backing': 'matrix', 'noise': 'cov-scalar', 'prior': 'prec-scalar',
+                    'two': '3x2b'})
+        out.append({'key': '%s/rto/two-likelihoods-equal-length/funpair' % iface, 'kind': 'rto', 'iface': iface, 'mat': '3x2', 'backing': 'funpair', 'noise': 'sqrtprec-vector', 'prior': 'cov-scalar',
+                    'two': '3x2b'})
         for loc in ['zero', 'sym']:
             for scale in ['one', 'sym']:
                 out.append({'key': '%s/ugla/loc-%s/scale-%s' % (iface, loc, scale), 'kind': 'ugla', 'iface': iface, 'loc': loc, 'scale': scale})
@@ -170,11 +176,12 @@ def run_rto(cfg, c, dt):
         ydist = cuqi.distribution.Gaussian(mean=model(prior) if False else model, name='y', geometry=m, **kw1)
         liks = [(A, Lam1, y)]
         if cfg.get('two'):
-            A2 = MATS['2x2']
-            model2 = make_model(A2, 'matrix')
-            kw2, Lam2 = gaussian_kw(c, 'noise2', 'prec-scalar', 2, 'q')
-            y2 = cm.boxed(c, c.reals('y2', 2), B)
-            ydist2 = cuqi.distribution.Gaussian(mean=model2, name='y2', geometry=2, **kw2)
+            A2 = MATS['2x2' if cfg['two'] is True else cfg['two']]
+            m2 = A2.shape[0]
+            model2 = make_model(A2, 'matrix' if cfg['two'] is True else cfg['backing'])
+            kw2, Lam2 = gaussian_kw(c, 'noise2', 'prec-scalar', m2, 'q')
+            y2 = cm.boxed(c, c.reals('y2', m2), B)
+            ydist2 = cuqi.distribution.Gaussian(mean=model2, name='y2', geometry=m2, **kw2)
             # both models must act on the same parameter name
             J = cuqi.distribution.JointDistribution(ydist, ydist2, prior)
             target = J(y=y, y2=y2)
